@@ -133,6 +133,12 @@ def execute(case):
                     finish(i, x)
                     if x:
                         raise x
+            if (case.get("seed", 0) + i) % 3 == 1:
+                # the same callback as an instance with __call__ (no __name__ / __qualname__ of its own)
+                class CallableObject:
+                    def __call__(self, *args, _f=f):
+                        return _f(*args)
+                return CallableObject()
             return f
 
         async def block():
